@@ -411,8 +411,12 @@ func checkDecoderLoops(c *core.Ctx, funcs []*ssa.Function) {
 				c.Discharge("codec.loops", key, pos, "range loop over a finite collection")
 				continue
 			}
+			if isCountedLoop(h, body) {
+				c.Discharge("codec.loops", key, pos, "counted loop: an index that every round advances towards a bound fixed outside the loop")
+				continue
+			}
 			// frame loop? the frame whose Type() drives the loop: a nextFrame call with a Type() referrer that dominates every latch
-			var frame *ssa.Call
+			var frame ssa.Value
 			for _, b := range fn.Blocks {
 				if !body[b] {
 					continue
@@ -440,6 +444,36 @@ func checkDecoderLoops(c *core.Ctx, funcs []*ssa.Function) {
 				}
 			}
 			if frame == nil {
+				// three-clause form (for f := next(); f.Type() != FIN; f = next()): the frame is the header's merge of
+				// nextFrame calls, the one taken round the loop being made inside it
+				for _, in := range h.Instrs {
+					phi, ok := in.(*ssa.Phi)
+					if !ok || phi.Referrers() == nil {
+						continue
+					}
+					all := true
+					for j, e := range phi.Edges {
+						call, isCall := e.(*ssa.Call)
+						if !isCall || call.Common().StaticCallee() != nextFrame {
+							all = false
+							break
+						}
+						if h.Dominates(h.Preds[j]) && !body[call.Block()] {
+							all = false
+						}
+					}
+					hasType := false
+					for _, r := range *phi.Referrers() {
+						if tc, ok := r.(*ssa.Call); ok && tc.Common().StaticCallee() == typeFn && body[tc.Block()] {
+							hasType = true
+						}
+					}
+					if all && hasType && frame == nil {
+						frame = phi
+					}
+				}
+			}
+			if frame == nil {
 				if why, ok := reviewed[core.FnName(fn)]; ok {
 					c.Discharge("codec.loops", key, pos, "reviewed: "+why)
 				} else {
@@ -451,7 +485,7 @@ func checkDecoderLoops(c *core.Ctx, funcs []*ssa.Function) {
 			var tcall ssa.Value
 			if frame.Referrers() != nil {
 				for _, r := range *frame.Referrers() {
-					if call, ok := r.(*ssa.Call); ok && call.Common().StaticCallee() == typeFn {
+					if call, ok := r.(*ssa.Call); ok && call.Common().StaticCallee() == typeFn && body[call.Block()] {
 						tcall = call
 					}
 				}
@@ -551,8 +585,25 @@ func isCountedLoop(h *ssa.BasicBlock, body map[*ssa.BasicBlock]bool) bool {
 		if !ok || phi.Block() != h {
 			return false
 		}
+		// the bound is fixed while the loop runs: defined outside it, or the length of a slice / string value defined
+		// outside it (an SSA slice value never changes its length)
+		var lenOf ssa.Value
 		if in, ok := bound.(ssa.Instruction); ok && body[in.Block()] {
-			if _, isConst := bound.(*ssa.Const); !isConst {
+			call, isCall := bound.(*ssa.Call)
+			if !isCall {
+				return false
+			}
+			bi, isBi := call.Common().Value.(*ssa.Builtin)
+			if !isBi || bi.Name() != "len" {
+				return false
+			}
+			lenOf = call.Common().Args[0]
+			if in2, ok := lenOf.(ssa.Instruction); ok && body[in2.Block()] {
+				return false
+			}
+			switch lenOf.Type().Underlying().(type) {
+			case *types.Slice, *types.Basic:
+			default:
 				return false
 			}
 		}
@@ -564,8 +615,23 @@ func isCountedLoop(h *ssa.BasicBlock, body map[*ssa.BasicBlock]bool) bool {
 			if !ok || (step.Op != token.ADD && step.Op != token.SUB) || step.X != ssa.Value(phi) {
 				return false
 			}
-			k, ok := core.ConstIntValue(step.Y)
-			if !ok || k == 0 {
+			if k, ok := core.ConstIntValue(step.Y); ok && k != 0 {
+				continue
+			}
+			// i += size of the rune decoded at x[i:], under i < len(x): the rest is not empty there, so size >= 1
+			ex, isEx := step.Y.(*ssa.Extract)
+			if !isEx || ex.Index != 1 || step.Op != token.ADD || lenOf == nil || bo.Op != token.LSS || bo.X != iv || !body[h.Succs[0]] {
+				return false
+			}
+			dec, isCall := ex.Tuple.(*ssa.Call)
+			if !isCall || dec.Common().StaticCallee() == nil {
+				return false
+			}
+			if n := calleeFullName(dec.Common().StaticCallee()); n != "unicode/utf8.DecodeRune" && n != "unicode/utf8.DecodeRuneInString" {
+				return false
+			}
+			sl, isSl := dec.Common().Args[0].(*ssa.Slice)
+			if !isSl || sl.X != lenOf || sl.Low != ssa.Value(phi) || sl.High != nil {
 				return false
 			}
 		}
@@ -1341,7 +1407,7 @@ func checkExpressionFrameSet(c *core.Ctx) {
 		for _, b := range fn.Blocks {
 			for _, in := range b.Instrs {
 				bo, ok := in.(*ssa.BinOp)
-				if !ok || bo.Op != token.EQL {
+				if !ok || (bo.Op != token.EQL && bo.Op != token.NEQ) {
 					continue
 				}
 				var other ssa.Value
